@@ -613,6 +613,11 @@ fn visit_selection<'a, V: Visitor<'a>>(
     ctx: &mut VisitorContext<'a>,
     selection: &'a Positioned<Selection>,
 ) {
+    #[cfg(async_graphql_verif)]
+    crate::verif_hooks::count(match v.mode() {
+        VisitMode::Normal => "visit_selection/normal",
+        VisitMode::Inline => "visit_selection/inline",
+    });
     v.enter_selection(ctx, selection);
     match &selection.node {
         Selection::Field(field) => {
@@ -693,6 +698,8 @@ fn visit_input_value<'a, V: Visitor<'a>>(
     expected_ty: Option<MetaTypeName<'a>>,
     value: &'a Value,
 ) {
+    #[cfg(async_graphql_verif)]
+    crate::verif_hooks::count("visit_input_value");
     v.enter_input_value(ctx, pos, &expected_ty, value);
 
     match value {
